@@ -63,5 +63,8 @@ fn main() {
         let name = format!("histories-{}", ALG_NAMES[alg as usize]);
         ctx.prop(&name, "segtree-history", per_alg, case(Some(alg), max_ops), |c| run_case(c, Focus::Fold));
     }
+    // large trees (depth up to 13 quick / 17 thorough): few, short histories
+    let lg = ctx.n(12, 16) as u32;
+    ctx.prop_split("histories-large-trees", "segtree-history", ctx.n(250, 12_000), ctx.parts(), case_large(None, lg, 40).boxed(), |c| run_case(c, Focus::Fold));
     ctx.finish();
 }
